@@ -66,7 +66,7 @@ def check(repo, tier="quick"):
     rule_d(repo, res, R, W, where)
     rule_e(repo, res, R, W, where)
     rule_g(repo, res, R, W, where)
-    res.floor("C20.g", 4)
+    res.floor("C20.g", 6)
     rule_h(repo, res, R)
     res.floor("C20.h", 2)
     from .. import lints as _lints
@@ -409,6 +409,11 @@ def rule_g(repo, res, R, W, where):
             idx.setdefault("bit", i)
     ok = set(idx) == {"fseek", "load", "bit"} and idx["fseek"] < idx["load"] < idx["bit"]
     res.check(ok, "C20.g", "reader.seek:move-load-position", "%s:BitstreamReader.seek" % where, "the reader's seek must move the file, load the byte at the target (_read_byte) and then set _next_bit = bits (found %s)" % sorted(idx, key=idx.get), by="file.seek < _read_byte < _next_bit = bits")
+    # positions are absolute file offsets: both classes start counting from where the file is
+    for cname, M in (("BitstreamReader", R), ("BitstreamWriter", W)):
+        init = M.get("__init__")
+        ok = init is not None and any(pmatch("self._byte_offset = self._file.tell()", b) is not None for b in ast.walk(init) if isinstance(b, ast.Assign))
+        res.check(ok, "C20.g", "%s.__init__:offset-from-file-position" % cname, "%s:%s.__init__" % (where, cname), "%s must start its byte offset at self._file.tell(): tell() is what the serialiser records for later seek()s (which are absolute), so a writer that starts at 0 in a file that is not at position 0 patches parse offsets into whatever precedes the stream" % cname, by="self._byte_offset = self._file.tell()")
     # write_bit / _write_byte: a completed byte goes to the file exactly once
     wb = W.get("_write_byte")
     ok = wb is not None and sum(1 for c in ast.walk(wb) if isinstance(c, ast.Call) and dotted(c.func) == "self._file.write") == 1
